@@ -207,8 +207,8 @@ NEXTRA = 10
 @harness(
     prop="C15",
     cubes={"k": range(NEXTRA), "mech": range(4)},
-    bounds={"quick": {"L": 2}, "thorough": {"L": 4}},
-    timeout={"quick": 60, "thorough": 300},
+    bounds={"quick": {"L": 2}, "thorough": {"L": 3}},
+    timeout={"quick": 100, "thorough": 900},
     witness=[dict(k=0, mech=1, s="s"), dict(k=3, mech=2, s="q"), dict(k=5, mech=3, s="q")],
     doc="schemas, databases, NOT wrappers (dynamic attribute lookup), schema-qualified and temporal tables",
 )
